@@ -3,7 +3,7 @@
    per-frame functions, so that the list theorems (EditorProofs.v) hold for every instantiation;
    `edit` below instantiates it with the RPU operations of Ops.v. *)
 From Coq Require Import List NArith ZArith Lia Bool String Ascii.
-From DV Require Import Outcome Bits BitIO Fields Blocks Rpu Ops.
+From DV Require Import Outcome SortUnique Bits BitIO Fields Blocks Rpu Ops.
 From DVgen Require Import Consts_gen Blocks_gen DmData_gen Switches_gen Modes_gen PqUsers_gen.
 Import ListNotations.
 Open Scope N_scope.
@@ -313,11 +313,25 @@ Definition execute (c : econfig) (l : list (option rpu)) : outcome (list (option
   | None => Ok l
   end.
 
-(* Editor::edit, from the parsed list to the NALs written by write_rpu_file *)
-Definition edit (p : profile) (c : econfig) (rpus : list rpu) : outcome (list (list N)) :=
+(* scene_cuts and edits are BTreeMap<String, _>: iterated in key order (byte-wise lexicographic),
+   whatever the order of the entries in the JSON file *)
+Definition entry_le {V} (a b : string * V) : bool := String.leb (fst a) (fst b).
+Definition sort_entries {V} (l : list (string * V)) : list (string * V) := isort entry_le l.
+
+Definition canon (c : econfig) : econfig :=
+  mkCfg (e_mode c) (e_remove_cmv4 c) (e_remove_mapping c) (e_min_pq c) (e_max_pq c) (e_has_aa c) (e_crop c)
+        (e_drop_l5 c) (e_presets c) (option_map sort_entries (e_edits c)) (e_remove c) (e_dups c)
+        (option_map sort_entries (e_cuts c)) (e_l6 c) (e_l9 c) (e_l11 c) (e_l255 c) (e_source c) (e_levels c).
+
+(* Editor::edit on a configuration whose maps are listed in key order *)
+Definition edit_sorted (p : profile) (c : econfig) (rpus : list rpu) : outcome (list (list N)) :=
   let* l := execute c (map Some rpus) in
   let* data := encode_remaining (write_hevc_unspec62_nalu p src_sw) l in
   match e_dups c with
   | Some ds => dup_apply (dup_order ds) data
   | None => Ok data
   end.
+
+(* Editor::edit, from the parsed list to the NALs written by write_rpu_file *)
+Definition edit (p : profile) (c : econfig) (rpus : list rpu) : outcome (list (list N)) :=
+  edit_sorted p (canon c) rpus.
